@@ -17,6 +17,17 @@ use std::time::{Duration, Instant};
 
 pub const HARNESS_VERSION: u32 = 1;
 
+/// which build of the simulator (and of ruzstd) this is: a debug-assertion panic only reproduces in the same build
+pub fn build_name() -> &'static str {
+    if cfg!(miri) {
+        "miri"
+    } else if cfg!(debug_assertions) {
+        "checked"
+    } else {
+        "release"
+    }
+}
+
 #[derive(Clone, Copy, Debug, PartialEq, Eq)]
 pub enum Tier {
     Quick,
@@ -495,6 +506,7 @@ pub fn write_replay<E: Engine>(engine: &E, base_seed: u64, f: &Found<E::Plan>, p
         "index": f.index,
         "run_seed": f.seed,
         "harness": HARNESS_VERSION,
+        "build": build_name(),
         "minimise_execs": minimised_from_ops,
         "plan": plan,
     });
@@ -524,7 +536,22 @@ pub fn base_seed_from_env() -> u64 {
     std::env::var("VERIF_SEED").ok().and_then(|s| s.trim().parse::<u64>().ok()).unwrap_or(1)
 }
 
-pub fn check<E: Engine>(engine: &E, tier: Tier, runs_override: Option<u64>, write_evidence: bool) -> CheckResult {
+/// options of one `check` invocation
+#[derive(Default)]
+pub struct CheckOpts {
+    pub runs: Option<u64>,
+    pub write_evidence: bool,
+    /// write a small JSON summary of this pass here (used for the second pass of a check, e.g. the `checked` build)
+    pub summary_out: Option<PathBuf>,
+    /// summaries of other passes to embed into the evidence: (name, path)
+    pub attach: Vec<(String, PathBuf)>,
+    /// label of this build (release / checked / asan / miri)
+    pub build_label: String,
+}
+
+pub fn check<E: Engine>(engine: &E, tier: Tier, opts: &CheckOpts) -> CheckResult {
+    let runs_override = opts.runs;
+    let write_evidence = opts.write_evidence;
     let base_seed = base_seed_from_env();
     let runs = runs_override.unwrap_or_else(|| engine.runs(tier));
     let id = engine.id();
@@ -645,6 +672,33 @@ pub fn check<E: Engine>(engine: &E, tier: Tier, runs_override: Option<u64>, writ
         unreached
     );
 
+    if let Some(p) = &opts.summary_out {
+        let sum = json!({
+            "build": if opts.build_label.is_empty() { build_name().to_string() } else { opts.build_label.clone() },
+            "evaluations": b.evaluations,
+            "distinct_nontrivial": b.distinct_nontrivial,
+            "logical_steps": b.steps,
+            "violations": violations_total,
+            "known_findings_hit": known_lines,
+            "violations_reported": reported,
+            "batch_digest": format!("{:016x}", b.digest),
+            "wall_s": b.wall.as_secs_f64(),
+            "exit": exit,
+        });
+        let _ = std::fs::write(p, serde_json::to_vec_pretty(&sum).unwrap());
+    }
+    let mut additional = serde_json::Map::new();
+    for (name, path) in &opts.attach {
+        match std::fs::read(path).ok().and_then(|b| serde_json::from_slice::<Value>(&b).ok()) {
+            Some(v) => {
+                additional.insert(name.clone(), v);
+            }
+            None => {
+                println!("HARNESS-ERROR summary of pass {name} missing at {path:?}");
+                exit = 2;
+            }
+        }
+    }
     if write_evidence {
         let ev = json!({
             "property_id": id,
@@ -669,6 +723,8 @@ pub fn check<E: Engine>(engine: &E, tier: Tier, runs_override: Option<u64>, writ
                 "batch_digest": format!("{:016x}", b.digest),
                 "workload_items_skipped_soft": b.soft_skips,
                 "components": engine.components(),
+                "build": if opts.build_label.is_empty() { build_name().to_string() } else { opts.build_label.clone() },
+                "additional_passes": additional,
                 "violations_reported": reported,
                 "known_findings_hit": known_lines,
             },
